@@ -42,6 +42,9 @@ REQUIRED_THEOREMS = [
     # round 6: parse_field + the while-loop of import_medit read from the source, bridged to the line-by-line automaton
     "import_medit_bridge", "parse_field_bridge", "medit_round_trip_source", "medit_reads_reference_source", "medit_save_load_pipeline_source",
     "load_raw_source", "load_mesh_source", "save_content_source",
+    # round 7: geogram import_attribute read from the source (the default-value test of blind C04-g / C04-i)
+    "import_attribute_bridge", "import_attribute_dense_source", "import_attribute_nothing_else_source", "import_attribute_values_source",
+    "import_wrappers_source", "export_stl_wrapper_source", "import_stl_wrapper_source",
 ]
 TRUSTED = [
     "Lean 4.33.0 kernel; axioms ⊆ {propext, Classical.choice, Quot.sound}",
@@ -75,7 +78,7 @@ RULE = ("round 3 adds: histories on one mesh object (save, save again, save to a
 # Python oracle / reference codecs look at its behaviour.
 _IO = "mouette/mesh/io/"
 SOURCE_MAP = {
-    _IO + "obj.py::import_obj": "modelled: open/readlines glue around parse_obj_data (token-level file)",
+    _IO + "obj.py::import_obj": "translated: whole body (Generated.C04Wrap.importObj, import_wrappers_source); open/readlines -> token-level file is the glue",
     _IO + "obj.py::parse_vertex": "translated: whole body evaluated for a token without '/' (Generated.C04R.parseVertex, parse_obj_bridge)",
     _IO + "obj.py::parse_obj_data": "translated: whole body: line loop with its branch bodies, then the loop over the face records (Generated.C04R.objLine / objCorner / parseObj, parse_obj_bridge); vn / vt / corners with a texture or normal index leave the domain; also the prefix table (obj_rows_bridge)",
     _IO + "obj.py::export_obj": "translated: whole body, statement by statement (Generated.C04W.exportObj, export_obj_bridge), under 'no uv_coords / normals attribute'",
@@ -89,22 +92,22 @@ SOURCE_MAP = {
     _IO + "geogram_ascii.py::Chunk.Container.to_string": "modelled: Model/IOGeogram.lean (container names)",
     _IO + "geogram_ascii.py::Chunk.__init__": "modelled: Geo.parseFile (file -> chunk list)",
     _IO + "geogram_ascii.py::is_chunk_header": "modelled: Geo.parseFile",
-    _IO + "geogram_ascii.py::import_attribute": "modelled: Geo.importChunks (attribute chunks)",
+    _IO + "geogram_ascii.py::import_attribute": "translated: whole body over a sparse-attribute model (Generated.C04A.importAttribute, import_attribute_bridge, import_attribute_dense_source: any default value, every value comes back); the chunk model keeps the dense values",
     _IO + "geogram_ascii.py::import_geogram_ascii": "modelled: Geo.importGeo / importChunks",
     _IO + "geogram_ascii.py::export_attribute": "modelled: Geo.exportChunks (attribute chunks)",
     _IO + "geogram_ascii.py::export_geogram_ascii": "modelled: Geo.exportGeo / exportChunks",
-    _IO + "off.py::import_off": "modelled: open/readlines glue around parse_off_data",
+    _IO + "off.py::import_off": "translated: whole body (Generated.C04Wrap.importOff, import_wrappers_source)",
     _IO + "off.py::parse_off_data": "translated: whole body (Generated.C04R.offRecord / parseOff, parse_off_bridge); *_corners bookkeeping outside the token-level mesh, arity-2 branch outside the domain",
     _IO + "off.py::export_off": "translated: whole body (Generated.C04W.exportOff, export_off_bridge)",
-    _IO + "tet.py::import_tet": "modelled: open/readlines glue around parse_tet_data",
+    _IO + "tet.py::import_tet": "translated: whole body (Generated.C04Wrap.importTet, import_wrappers_source)",
     _IO + "tet.py::parse_tet_data": "translated: whole body (Generated.C04R.parseTet, parse_tet_bridge); deque()/strip()/split() are the token-level glue",
     _IO + "tet.py::export_tet": "translated: whole body (Generated.C04W.exportTet, export_tet_bridge)",
     _IO + "xyz.py::import_xyz": "translated: the line loop (Generated.C04R.xyzStep / importXyz, import_xyz_bridge); the normals side list / attribute is outside the property",
     _IO + "xyz.py::export_xyz": "translated: whole body, branch without normals (Generated.C04W.exportXyz, export_xyz_bridge)",
     _IO + "stl.py::is_stl_ascii": "oracle-only: exercised by the reference-written ASCII STL files",
-    _IO + "stl.py::import_stl": "modelled: importStlMerged of Model/IOStl.lean (stl_reader itself is external, trusted)",
+    _IO + "stl.py::import_stl": "translated: whole body (Generated.C04Wrap.importStl, import_stl_wrapper_source); stl_reader.read itself is external (model: importStlMerged), the ASCII branch calls _import_stl_ascii (oracle-only)",
     _IO + "stl.py::_import_stl_ascii": "oracle-only: ASCII STL files of the reference writer are loaded and compared by the oracle; no Lean model",
-    _IO + "stl.py::export_stl": "modelled: hasattr guard + Binary_STL_Writer(fp).write(mesh) (exportStl)",
+    _IO + "stl.py::export_stl": "translated: whole body (Generated.C04Wrap.exportStl, export_stl_wrapper_source)",
     _IO + "stl.py::Binary_STL_Writer.__init__": "translated: `self.counter = 0` is the initial state of Generated.C04W.exportStl (export_stl_bridge)",
     _IO + "stl.py::Binary_STL_Writer._write_header": "translated: struct layout 80s+I and the counter written last (Generated.C04W.exportStl / stlFormats, stl_header_count_source)",
     _IO + "stl.py::Binary_STL_Writer._write_triangle": "translated: whole body (Generated.C04W.writeTriangle, export_stl_bridge)",
@@ -1365,6 +1368,16 @@ def translate():
         T.write_generated("C04Writers", txt)
         return detail
 
+    def site_attr():
+        txt, detail = CT.attr_import()
+        T.write_generated("C04Attr", txt)
+        return detail
+
+    def site_wrap():
+        txt, detail = CT.wrappers()
+        T.write_generated("C04Wrap", txt)
+        return detail
+
     def site_glue():
         txt, detail = CT.glue()
         T.write_generated("C04Glue", txt)
@@ -1382,6 +1395,8 @@ def translate():
            [T.site("mouette/mesh/io/{off,tet,xyz,medit,obj,stl}.py: writer bodies export_off, export_tet, export_xyz, export_medit (+count_faces, "
                    "count_cells), export_obj, Binary_STL_Writer.{__init__,_write_header,_write_triangle,write} read statement by statement", _with_stub("C04Writers", site_writers)),
             T.site("mouette/mesh/io/io.py: read_by_extension / write_by_extension tables; mesh.py: load, _instanciate_raw_mesh_data", _with_stub("C04Dispatch", site_dispatch)),
+            T.site("mouette/mesh/io/geogram_ascii.py: import_attribute (row of element i, exact comparison with the default value, scalar / vector store)", _with_stub("C04Attr", site_attr)),
+            T.site("mouette/mesh/io/{obj,off,tet,stl}.py: wrappers import_obj, import_off, import_tet, export_stl, import_stl", _with_stub("C04Wrap", site_wrap)),
             T.site("mouette/mesh/mesh.py: load and save statement by statement (raw switch, read -> instantiate; adjacency, re-wrap, ignore block, write)", _with_stub("C04Glue", site_glue)),
             T.site("mouette/mesh/io/medit.py: import_medit dispatch (keyword, container, arity)", _with_stub("C04Medit", site)),
             T.site("mesh_attributes.py: Attribute.Type.from_string/to_string/byte_size; obj.py: parse_obj_data line-prefix dispatch", _with_stub("C04Tables", site2)),
